@@ -76,6 +76,7 @@ func (p *FullIntraRequest) Unmarshal(rawPacket []byte) error {
 	}
 
 	p.SenderSSRC = binary.BigEndian.Uint32(rawPacket[headerLength:])
+	p.FIR = nil
 	p.MediaSSRC = binary.BigEndian.Uint32(rawPacket[headerLength+ssrcLength:])
 	for i := headerLength + firOffset; i < (headerLength + 4*int(h.Length)); i += 8 {
 		p.FIR = append(p.FIR, FIREntry{
